@@ -16,8 +16,8 @@ CVC5 = "/usr/bin/cvc5"
 # of solving here, depending on the kind of VC), with a wall-clock backstop only at eight times the nominal budget.
 Z3_RLIMIT_PER_S = 3_500_000
 WALL_BACKSTOP = 5
-MAX_TAIL = 12
-MAX_PHASE_B = 48
+MAX_TAIL = 40
+MAX_PHASE_B = 400
 
 
 def _z3_try(smt2, timeout_ms, seed, deterministic=False):
@@ -115,7 +115,9 @@ def _solve_one(job):
         return False
 
     if phase == "A":
-        z3_stage([0], 5000 if quick else (15000 if use_cvc5 else Z3_TIMEOUT_MS))
+        # non-string VCs: the first attempt is already load-independent (rlimit; wall-clock backstop at five times the budget), so that a busy
+        # machine does not turn dozens of easy VCs into "open" ones that then compete for the later phases
+        z3_stage([0], 5000 if quick else (15000 if use_cvc5 else Z3_TIMEOUT_MS), deterministic=not strings and not quick)
     elif phase == "B":
         cvc5_stage(30 if strings else 10) or z3_stage([1, 2] if strings else [1, 2, 3], 10000)
     elif strings:
